@@ -4,7 +4,8 @@ from . import valueflow as vf
 from .callgraph import non_production
 
 LOCK_FN = "lock_api::mutex::Mutex::<R, T>::lock"
-STD_LOCK_FN = "std::sync::Mutex::<T>::lock"
+STD_LOCK_FNS = ("std::sync::Mutex::<T>::lock", "std::sync::poison::mutex::Mutex::<T>::lock")
+LOCK_FNS = (LOCK_FN,) + STD_LOCK_FNS
 
 # different names of the same mutex object (confirmed by reading the construction sites)
 ALIASES = {
@@ -28,7 +29,7 @@ def lock_identity(fn, t):
     pr = vf.producers(fn, t["a"][0])
     if ty == "secp256k1zkp::Secp256k1":
         return "SECP"
-    owners = sorted((x[1].split("::")[-1], x[2]) for x in pr if x[0] == "field" and x[1].startswith("grin_wallet") and "{closure" not in x[1])
+    owners = sorted((x[1].split("::")[-1], x[2]) for x in pr if x[0] == "field" and x[1] not in ("()",) and not x[1].startswith(("core::", "alloc::", "std::", "lock_api::", "parking_lot::")) and "{closure" not in x[1])
     if owners:
         o = owners[-1]
         return ALIASES.get("%s.%s" % (o[0], o[1]), "%s.%s" % (o[0], o[1]))
@@ -72,6 +73,12 @@ class LockSite:
         while changed:
             changed = False
             for bb in fn.bbs:
+                tt = bb["t"]
+                if tt["k"] == "call" and tt.get("f") in vf.TRANSPARENT_CALLS and tt["a"] and not tt["d"][1]:
+                    p = vf.op_place(tt["a"][0])
+                    if p and not p[1] and p[0] in holders and "m" in tt["a"][0] and tt["d"][0] not in holders:
+                        holders.add(tt["d"][0])
+                        changed = True
                 for s in bb["s"]:
                     if s["k"] == "a" and not s["d"][1] and s["r"]["k"] == "use":
                         p = vf.op_place(s["r"]["o"])
@@ -106,7 +113,7 @@ class LockSite:
 def lock_sites(fn):
     out = []
     for b, t in fn.calls():
-        if t.get("f") in (LOCK_FN,):
+        if t.get("f") in LOCK_FNS:
             out.append(LockSite(fn, b, t, lock_identity(fn, t)))
     return out
 
@@ -154,7 +161,7 @@ class LockAnalysis:
                     t = f.bbs[b]["t"]
                     if t["k"] != "call" or b == s.b:
                         continue
-                    if t.get("f") == LOCK_FN:
+                    if t.get("f") in LOCK_FNS:
                         j = lock_identity(f, t)
                         edges.setdefault((s.ident, j), []).append((fid, pp.short(fid), _site(t), "direct"))
                         continue
